@@ -22,8 +22,12 @@ namespace sim
         long long max_steps{200000};
         int starve_thread{-1};            // F3: this thread is not chosen while others are runnable ...
         long long starve_from{0}, starve_steps{0};   // ... for steps in [from, from+steps)
-        std::vector<int> decisions;       // replay: explicit thread choice per step (fallback lowest runnable id)
-        bool use_decisions{false};
+        // Schedule tape: every scheduling / fault decision is one small integer, 0 meaning "nothing unusual" (keep running
+        // the current thread, no stall, no spurious or late wake-up). record_tape logs the decisions of a seeded run;
+        // use_tape replays a (possibly edited) tape instead of the PRNG - beyond its end every decision is the default.
+        std::vector<long long> tape;
+        bool use_tape{false};
+        bool record_tape{false};
     };
 
     struct Stats
@@ -48,6 +52,7 @@ namespace sim
     long long seq();                                                   // global event sequence number (scheduler steps)
     const Stats &stats();
     const std::vector<int> &trace();
+    const std::vector<long long> &tape_record();      // decisions taken (when Config::record_tape or use_tape)
     unsigned long long trace_hash();
     // the running thread is inside a region where being the last runnable thread means "nobody can notify": used by the
     // lost wake-up oracle; set by the harness around engine waits is not needed - the scheduler logs forced timeouts itself.
